@@ -16,12 +16,14 @@ hdrs = find_files('include/**/*.h')
 inc = header_directory('include', include='**/*.h')
 a = static_library('a', files=srcs, includes=[inc])
 s = shared_library('sub/s', files=['s.c'], includes=[inc], libs=[a])
-e1 = executable('e1', files=['main.c'], libs=[s, a], compile_options=[opts.define('X', '2')])
+s2 = shared_library('other/s2', files=['s2.c'])
+s3 = shared_library('s3', files=['s3.c'])
+e1 = executable('e1', files=['main.c'], libs=[s, s2, s3, a], compile_options=[opts.define('X', '2')])
 e2 = executable('bin/e2', files=['main.c'], libs=[a])
 test(e1)
 test(e2, environment={'A': '1', 'B': '2', 'C': '3'})
-install(e1, e2, s, inc)
-pkg_config('p', version='1.0', includes=[inc], libs=[s, a])
+install(e1, e2, inc)
+pkg_config('p', version='1.0', includes=[inc], libs=[s, a], conflicts=[('foo', '>=1,<2,!=1.5,!=1.7')])
 alias('everything', [e1, e2])
 extra_dist(files=['README'])
 """
@@ -90,6 +92,8 @@ class Determinism(Bounded):
                 w('lib/f%d.c' % i, 'int f%d(void) { return %d; }\n' % (i, i))
                 w('include/d%d/h%d.h' % (i, i), '')
             w('s.c', 'int s(void) { return 0; }\n')
+            w('s2.c', 'int s2(void) { return 0; }\n')
+            w('s3.c', 'int s3(void) { return 0; }\n')
             w('main.c', 'int main(void) { return 0; }\n')
             w('README', '')
             lp = top + '/bin/bfg9000'
